@@ -44,54 +44,30 @@ def distance_segment_to_segment(f1, f2, t1, t2):
     x3, y3 = t1
     x4, y4 = t2
     n = ((y4 - y3) * (x2 - x1) - (x4 - x3) * (y2 - y1))
-    if np.allclose([n], [0], rtol=0):
-        # parallel
-        is_parallel = True
-        n = 0.0001  # TODO: simulates a point far away
-    else:
-        is_parallel = False
-    u_f = ((x4 - x3) * (y1 - y3) - (y4 - y3) * (x1 - x3)) / n
-    u_t = ((x2 - x1) * (y1 - y3) - (y2 - y1) * (x1 - x3)) / n
-    xi = x1 + u_f * (x2 - x1)
-    yi = y1 + u_f * (y2 - y1)
-    changed_f = False
-    changed_t = False
-    if u_t > 1:
-        u_t = 1
-        changed_t = True
-    elif u_t < 0:
-        u_t = 0
-        changed_t = True
-    if u_f > 1:
-        u_f = 1
-        changed_f = True
-    elif u_f < 0:
-        u_f = 0
-        changed_f = True
-    if not changed_t and not changed_f:
-        return 0, (xi, yi), (xi, yi), u_f, u_t
-    xf = x1 + u_f * (x2 - x1)
-    yf = y1 + u_f * (y2 - y1)
-    xt = x3 + u_t * (x4 - x3)
-    yt = y3 + u_t * (y4 - y3)
-    if changed_t and changed_f:
-        # Compare furthest point from intersection with segment
-        df = (xf - xi) ** 2 + (yf - yi) ** 2
-        dt = (xt - xi) ** 2 + (yt - yi) ** 2
-        if df > dt:
-            changed_t = False
-        else:
-            changed_f = False
-    if changed_t:
-        pt = (xt, yt)
+    lf = math.sqrt((x2 - x1) ** 2 + (y2 - y1) ** 2)
+    lt = math.sqrt((x4 - x3) ** 2 + (y4 - y3) ** 2)
+    if abs(n) > 1e-9 * lf * lt:
+        # Not parallel (relative to the segment lengths), the lines intersect
+        u_f = ((x4 - x3) * (y1 - y3) - (y4 - y3) * (x1 - x3)) / n
+        u_t = ((x2 - x1) * (y1 - y3) - (y2 - y1) * (x1 - x3)) / n
+        if 0 <= u_f <= 1 and 0 <= u_t <= 1:
+            xi = x1 + u_f * (x2 - x1)
+            yi = y1 + u_f * (y2 - y1)
+            return 0, (xi, yi), (xi, yi), u_f, u_t
+    # The segments do not cross (or are parallel, collinear or of zero length): the shortest
+    # connection then starts in one of the four end points
+    best = None
+    for pt, u_t in ((t1, 0.0), (t2, 1.0)):
         pf, u_f = project(f1, f2, pt)
-    elif changed_f:
-        pf = (xf, yf)
+        d = distance(pf, pt)
+        if best is None or d < best[0]:
+            best = (d, pf, pt, u_f, u_t)
+    for pf, u_f in ((f1, 0.0), (f2, 1.0)):
         pt, u_t = project(t1, t2, pf)
-    else:
-        raise Exception(f"Should not happen")
-    d = distance(pf, pt)
-    return d, pf, pt, u_f, u_t
+        d = distance(pf, pt)
+        if d < best[0]:
+            best = (d, pf, pt, u_f, u_t)
+    return best
 
 
 def project(s1, s2, p, delta=0.0):
